@@ -35,8 +35,9 @@ type c14Plan struct {
 	Rogue     bool   `json:"rogue"`
 	Truncated bool   `json:"truncated"` // source truncated before streaming
 	Permute   bool   `json:"permute"`
-	Corrupt   string `json:"corrupt"` // "", dup-vertex, dup-tx, drop-parent, second-self-sealed, empty-tx, cut
+	Corrupt   string `json:"corrupt"` // "", dup-vertex, dup-tx, drop-parent, second-self-sealed, empty-tx, cut, emptied-in-place, unknown-parent-in-place
 	Pos       int    `json:"pos"`
+	AtGenesis bool   `json:"at_genesis"` // the in-place corruptions hit the self-sealed (genesis) vertex itself
 	Transport bool   `json:"transport"` // through the real LoadDag RPC over an in-memory connection
 	FollowUps int    `json:"follow_ups"`
 }
@@ -238,6 +239,26 @@ func c14Run(rt *rapid.T, p c14Plan, seed string) (m *lm, log []string, nontrivia
 			stream = append(stream, &v)
 		case "cut":
 			stream = stream[:1+i%(len(stream)-1)]
+		case "emptied-in-place", "unknown-parent-in-place":
+			// one streamed vertex is damaged where it stands (every other class above adds or removes an item)
+			j := i
+			if p.AtGenesis {
+				for k, v := range stream {
+					if v.Hash == m.w.Genesis.Hash {
+						j = k
+					}
+				}
+				m.label("c14:corrupt-at-genesis-vertex")
+			}
+			c := sim.CloneVertex(stream[j])
+			if p.Corrupt == "emptied-in-place" {
+				c.Transaction.Spice = spice.Melange{}
+				c.Transaction.Data = nil
+			} else {
+				c.LeftParentHash = ref.Hash{0xde, 0xad, byte(j), 0x01}
+				c.RightParentHash = ref.Hash{0xde, 0xad, byte(j), 0x02}
+			}
+			stream[j] = &c
 		}
 		m.label("c14:corrupt:" + p.Corrupt)
 	}
@@ -537,7 +558,7 @@ func (s *rawStreamServer) LoadDag(_ *emptypb.Empty, srv protobufcompiled.GossipA
 }
 
 func TestC14(t *testing.T) {
-	st := newStats(t, "C14", "cases = source ledgers generated by the ledger machine (1-2 nodes, rogue side branches, several tips, 5-120 operations, optionally truncated), streamed by the real StreamDAG, optionally permuted, optionally with ONE corruption (duplicate vertex, duplicate transaction, dropped parent, second self-sealed vertex, empty transaction, cut), loaded by a fresh node directly or through the real LoadDag RPC over an in-memory connection, then follow-up gossip to both; oracle = stream == live graph; malformed (by the statement's list, recomputed by the harness) => not loaded; well-formed => loaded with equal vertices, edges, index, genesis wallet, balances within the peer's per-tip set, equal follow-up outcomes; non-trivial = source has >=2 tips or >=20 vertices or was truncated, or the stream is corrupted; distinct by operation-log + plan fingerprint")
+	st := newStats(t, "C14", "cases = source ledgers generated by the ledger machine (1-2 nodes, rogue side branches, several tips, 5-120 operations, optionally truncated), streamed by the real StreamDAG, optionally permuted, optionally with ONE corruption (duplicate vertex, duplicate transaction, dropped parent, second self-sealed vertex, empty transaction, cut - each by adding or removing an item - or one streamed vertex damaged in place: transaction emptied / parents replaced by unknown hashes, at a drawn position or at the genesis vertex itself), loaded by a fresh node directly or through the real LoadDag RPC over an in-memory connection, then follow-up gossip to both; oracle = stream == live graph; malformed (by the statement's list, recomputed by the harness) => not loaded; well-formed => loaded with equal vertices, edges, index, genesis wallet, balances within the peer's per-tip set, equal follow-up outcomes; non-trivial = source has >=2 tips or >=20 vertices or was truncated, or the stream is corrupted; distinct by operation-log + plan fingerprint")
 	sim.Chdir(workDir(t))
 	caseNo := 0
 	rapid.Check(t, func(rt *rapid.T) {
@@ -557,7 +578,8 @@ func TestC14(t *testing.T) {
 			Pos:       rapid.IntRange(0, 1000).Draw(rt, "pos"),
 		}
 		if rapid.IntRange(0, 2).Draw(rt, "corruptOn") == 0 {
-			p.Corrupt = rapid.SampledFrom([]string{"dup-vertex", "dup-tx", "drop-parent", "second-self-sealed", "empty-tx", "cut"}).Draw(rt, "corrupt")
+			p.Corrupt = rapid.SampledFrom([]string{"dup-vertex", "dup-tx", "drop-parent", "second-self-sealed", "empty-tx", "cut", "emptied-in-place", "unknown-parent-in-place"}).Draw(rt, "corrupt")
+			p.AtGenesis = rapid.Bool().Draw(rt, "atGenesis")
 		}
 		seed := fmt.Sprintf("C14-%d-%d", shard(), caseNo)
 		m, log, nt, inc := c14Run(rt, p, seed)
